@@ -113,7 +113,7 @@ def judge(run, cases, res):
     names = ["waf_duplicate_tag", "waf_missing_signature", "waf_invalid_timestamp", "waf_failed_validation", "dos_invalid",
              "dos_policy_missing", "dos_policy_invalid", "dos_logconf_missing", "dos_logconf_invalid", "usable"]
     for row in res:
-        cid, agree, spec, nontrivial, bits, nruns = row[:6]
+        cid, agree, spec, nontrivial, bits, nruns, k1, f21free = row[:8]
         c = byid[cid]
         canon = {"enabled": c["enabled"], "hist": c["hist"], "perms": c["perms"]}
         run.count_case(canon, bool(nontrivial))
@@ -121,7 +121,13 @@ def judge(run, cases, res):
         cov[c["class"]] = cov.get(c["class"], 0) + 1
         st["operations_compared"] += nruns * len(c["hist"])
         st["runs"] += nruns
-        for nme, v in zip(names, row[6:]):
+        st["cases_meeting_K1_hypothesis"] = st.get("cases_meeting_K1_hypothesis", 0) + k1
+        st["cases_meeting_f21_free_hypothesis"] = st.get("cases_meeting_f21_free_hypothesis", 0) + f21free
+        if not k1:
+            run.failing({"kind": "generator", "class": "K1-violated"}, [dict(c)],
+                        "generated history %d violates K1 (duplicate uids): the generator is broken" % cid,
+                        theorem="harness c19 generator", found_input=False)
+        for nme, v in zip(names, row[8:]):
             ans[nme] = ans.get(nme, 0) + v
         st["cases_in_known_class_revtime"] += 1 if bits & 1 else 0
         st["cases_in_known_class_delete_absent"] += 1 if bits & 2 else 0
@@ -247,15 +253,25 @@ def replay(run, path):
             xt, st = tr.get((c["id"], i), (None, None))
             print("  run %d order=%s" % (i, ro["order"]))
             shown = 0
+            nk = len(c["wkeys"])
+            pk = [(p[1] if "/" in p[1] else p[0] + "/" + p[1]) for p in c["pkeys"]]
+            keyed = [("0", k) for k in c["wkeys"]] + [("1", k) for k in c["wkeys"]] + [(None, k) for k in c["wkeys"]] + [("5", k) for k in pk]
+            prev_ans = None
             for n, (j, s) in enumerate(zip(ro["order"], ro["steps"])):
                 op = c["hist"][j]
+                unreported = []
+                if prev_ans is not None:
+                    for (d, k), a, b in zip(keyed, prev_ans, s["ans"]):
+                        if d is not None and (a == "0") != (b == "0") and (("A" if b == "0" else "D") + d + ":" + k) not in s["ch"]:
+                            unreported.append("%s%s:%s (%s->%s)" % ("A" if b == "0" else "D", d, k, a, b))
+                prev_ans = s["ans"]
                 impl = (s["ch"], s["pr"], s["us"] if s["is_us"] else None, s["ans"])
                 model = None
                 if xt and n < len(xt):
                     m = xt[n]
                     model = (list(m[0]), list(m[1]), None if m[2] is None else list(m[2]), m[3])
                 spec = st[n] if st and n < len(st) else None
-                differs = (model is not None and model != impl) or (spec is not None and spec != s["ans"])
+                differs = (model is not None and model != impl) or (spec is not None and spec != s["ans"]) or bool(unreported)
                 if differs and not verbose:
                     shown += 1
                     if shown > 3:
@@ -265,6 +281,8 @@ def replay(run, path):
                     print("      impl : changes=%s problems=%s usersigs=%s answers=%s" % impl)
                     if model is not None and model != impl:
                         print("      MODEL: changes=%s problems=%s usersigs=%s answers=%s" % model)
+                    if unreported:
+                        print("      UNREPORTED usability flips (missing from the change list): %s" % unreported)
                     if spec is not None and spec != s["ans"]:
                         print("      SPEC :%sanswers=%s" % (" " * 60, spec))
     judge(run, cases, res)
